@@ -115,3 +115,113 @@ Example C13_ex_history :
   = [Ok 14; Exn; Ok 14]
   /\ fresh_ok (w_fs nat w0) (w_next nat w0).
 Proof. vm_compute. split; [reflexivity|constructor]. Qed.
+
+(* ---------- a private cache that transform consults, keyed by an auxiliary argument (K20c) ----------
+   transform(X, aux) may keep a value computed from (fitted model, aux) on the estimator and use it again.
+   The estimator's cache is part of the state; the reference `single_c` is one call on the same fitted state with an
+   EMPTY cache (what the harness does: an untouched copy taken right after fit). *)
+Section C13c.
+  Variables data model out aux cost : Type.
+  Variable fitf : dict -> data -> model.
+  Variable costf : model -> aux -> cost.
+  Variable outc : model -> dict -> data -> aux -> cost -> out.
+  Variable norm : data -> data.
+  Variable cachef : data -> nat.
+  Variable valid : aux -> aux -> bool.
+
+  (* a cache validated by EQUALITY of the key: for any history of transform calls - any inputs, any auxiliary
+     arguments (equal or different ones of the same shape), any block counts and fault points - starting from any
+     state whose cache is consistent, every call returns what a single call with an empty cache returns *)
+  Theorem C13_cache_history_eq : (forall a0 a, valid a0 a = true -> a0 = a) ->
+    forall rep mask (cs : list (ccall data aux)) (cw : cworld model aux cost),
+    cache_ok model aux cost costf cw ->
+    map snd (run_history_c data model out aux cost costf outc norm cachef valid rep mask cw cs)
+    = map (single_c data model out aux cost costf outc norm cachef valid rep mask cw) cs.
+  Proof.
+    intros H rep mask cs cw Hc.
+    apply (history_c data model out aux cost costf outc norm cachef valid rep mask
+                     (valid_eq_sound model aux cost costf valid H) cs cw Hc).
+  Qed.
+
+  (* more generally: any validity test under which an accepted cached value is the value that would be computed *)
+  Theorem C13_cache_history : sound model aux cost costf valid ->
+    forall rep mask (cs : list (ccall data aux)) (cw : cworld model aux cost),
+    cache_ok model aux cost costf cw ->
+    map snd (run_history_c data model out aux cost costf outc norm cachef valid rep mask cw cs)
+    = map (single_c data model out aux cost costf outc norm cachef valid rep mask cw) cs.
+  Proof. intros Hs rep mask. exact (history_c data model out aux cost costf outc norm cachef valid rep mask Hs). Qed.
+
+  (* refits: a fit that drops the cache (returning or raising, from ANY earlier state, stale cache included) is
+     followed by histories that agree with single calls *)
+  Theorem C13_cache_refit : sound model aux cost costf valid ->
+    forall rep mask x n k (cw : cworld model aux cost) (cs : list (ccall data aux)),
+    let cw1 := snd (fit_c data model aux cost fitf norm cachef true rep mask x n k cw) in
+    map snd (run_history_c data model out aux cost costf outc norm cachef valid rep mask cw1 cs)
+    = map (single_c data model out aux cost costf outc norm cachef valid rep mask cw1) cs.
+  Proof.
+    intros Hs rep mask x n k cw cs cw1.
+    apply (history_c data model out aux cost costf outc norm cachef valid rep mask Hs cs cw1).
+    apply (fit_c_reset data model aux cost fitf costf norm cachef).
+  Qed.
+End C13c.
+
+Print Assumptions C13_cache_history_eq.
+Print Assumptions C13_cache_history.
+Print Assumptions C13_cache_refit.
+
+(* witnesses: data = nat, model = nat, aux = list nat (the rows of `vectors`), cost = nat *)
+Definition sumn (l : list nat) : nat := fold_right Nat.add 0 l.
+Definition cw0 : cworld nat (list nat) nat := {| c_w := w0; c_kc := None |}.
+Definition by_eq (a0 a : list nat) : bool := if list_eq_dec Nat.eq_dec a0 a then true else false.
+Definition by_len (a0 a : list nat) : bool := length a0 =? length a.
+Definition fitc reset x cw :=
+  snd (fit_c nat nat (list nat) nat (fun d x => length d + x) S (fun x => x) reset true (Some 9) x 1 1 cw).
+Definition histc valid cw cs :=
+  map snd (run_history_c nat nat nat (list nat) nat (fun m a => m + sumn a) (fun m d y a v => v + y) S (fun x => x)
+                         valid true (Some 9) cw cs).
+Definition singlesc valid cw cs :=
+  map (single_c nat nat nat (list nat) nat (fun m a => m + sumn a) (fun m d y a v => v + y) S (fun x => x)
+                valid true (Some 9) cw) cs.
+
+Lemma by_eq_eq a0 a : by_eq a0 a = true -> a0 = a.
+Proof. unfold by_eq. destruct (list_eq_dec Nat.eq_dec a0 a); [auto|discriminate]. Qed.
+
+(* a cache validated by a WEAKER key (the number of rows): transform(X1, V1); transform(X2, V2) with a different V2
+   of the same length returns something else than a single call; the key-by-equality cache does not *)
+Theorem C13_cache_weak_key_refuted :
+  exists cs, histc by_len (fitc true 5 cw0) cs <> singlesc by_len (fitc true 5 cw0) cs.
+Proof. exists [(1, [1; 2], 1, 1); (1, [3; 4], 1, 1)]. vm_compute. discriminate. Qed.
+Print Assumptions C13_cache_weak_key_refuted.
+
+(* the same through a call that RAISES in block 0 of 2: it has already replaced the cache *)
+Theorem C13_cache_weak_key_raise_refuted :
+  histc by_len (fitc true 5 cw0) [(1, [3; 4], 1, 1); (1, [1; 2], 2, 0); (1, [3; 4], 1, 1)]
+  <> singlesc by_len (fitc true 5 cw0) [(1, [3; 4], 1, 1); (1, [1; 2], 2, 0); (1, [3; 4], 1, 1)]
+  \/ histc by_len (fitc true 5 cw0) [(1, [1; 2], 2, 0); (1, [3; 4], 1, 1)]
+  <> singlesc by_len (fitc true 5 cw0) [(1, [1; 2], 2, 0); (1, [3; 4], 1, 1)].
+Proof. right. vm_compute. discriminate. Qed.
+Print Assumptions C13_cache_weak_key_raise_refuted.
+
+(* a cache keyed by equality that fit does NOT drop: fit(5); transform(V); fit(7); transform(V) uses the cost of the
+   first model *)
+Theorem C13_cache_no_reset_refuted :
+  let cw1 := fitc true 5 cw0 in
+  let cw2 := match run_history_c nat nat nat (list nat) nat (fun m a => m + sumn a) (fun m d y a v => v + y) S
+                                  (fun x => x) by_eq true (Some 9) cw1 [(1, [1; 2], 1, 1)] with
+             | (cw', _) :: _ => cw' | [] => cw1 end in
+  histc by_eq (fitc false 7 cw2) [(1, [1; 2], 1, 1)] <> singlesc by_eq (fitc false 7 cw2) [(1, [1; 2], 1, 1)]
+  /\ histc by_eq (fitc true 7 cw2) [(1, [1; 2], 1, 1)] = singlesc by_eq (fitc true 7 cw2) [(1, [1; 2], 1, 1)].
+Proof. vm_compute. split; [discriminate|reflexivity]. Qed.
+Print Assumptions C13_cache_no_reset_refuted.
+
+(* non-vacuity: the equality-keyed cache meets the hypothesis, is really consulted (second and fourth call hit),
+   and the history - with a raising call and two different keys of the same length - equals the single calls *)
+Example C13_ex_cache :
+  (forall a0 a, by_eq a0 a = true -> a0 = a) /\
+  cache_ok nat (list nat) nat (fun m a => m + sumn a) (fitc true 5 cw0) /\
+  histc by_eq (fitc true 5 cw0) [(1, [1; 2], 1, 1); (1, [1; 2], 1, 1); (1, [3; 4], 2, 0); (1, [3; 4], 1, 1); (2, [1; 2], 1, 1)]
+  = [Ok 14; Ok 14; Exn; Ok 18; Ok 15] /\
+  singlesc by_eq (fitc true 5 cw0) [(1, [1; 2], 1, 1); (1, [1; 2], 1, 1); (1, [3; 4], 2, 0); (1, [3; 4], 1, 1); (2, [1; 2], 1, 1)]
+  = [Ok 14; Ok 14; Exn; Ok 18; Ok 15] /\
+  histc by_len (fitc true 5 cw0) [(1, [1; 2], 1, 1); (1, [3; 4], 1, 1)] = [Ok 14; Ok 14].
+Proof. split; [exact by_eq_eq|]. vm_compute. repeat split. Qed.
